@@ -211,18 +211,21 @@ def q_getitem(n, page_size, perm=None, with_index=True, parent=False, nan_rows=T
             geom = FakeGeom(n, (0.0, 0.0, 0.0, 0.0), [values.wrapb(b) for b in I], log, sindex=tree)
             ind = _CoordinateIndexer(geom, parent=FakeParent(geom) if parent else None)
             key = (slice(Num(k[0]), Num(k[1])), slice(Num(k[2]), Num(k[3])))
-            it.call(gi, [ind, key])
+            res = it.call(gi, [ind, key])
         except Infeasible:
             continue
         ex.paths += 1
         boxes = [b for tag, b in log if tag == 'box']
         sels = [s_ for tag, s_ in log if tag.startswith('selected')]
+        if not sels and (res is geom or isinstance(res, FakeParent)):
+            sels = [list(range(n))]         # the object itself is returned: every row is selected
         if parent and n == 0 and not sels:
             sels = [[]]          # an empty parent is returned as it is
-        conds = [z3.BoolVal(len(boxes) == 1 and len(sels) == 1)]
-        if len(boxes) == 1 and len(sels) == 1:
+        conds = [z3.BoolVal(len(boxes) <= 1 and len(sels) == 1)]
+        if len(boxes) == 1:
             bx = [Num.lift(v).v for v in boxes[0]]
             conds += [bx[0] == qx0, bx[1] == qy0, bx[2] == qx1, bx[3] == qy1]
+        if len(sels) == 1:
             sel = sels[0]
             conds.append(z3.BoolVal(sel == sorted(sel) and len(set(sel)) == len(sel) and all(0 <= x < n for x in sel)))
             for i in range(n):
